@@ -168,6 +168,7 @@ class AsyncSut:
         self.shim = make_shim(self.k)
         self._patch()
         self.srv = eio_aserver.AsyncServer(async_mode='asgi', logger=self.logger, **cfg)
+        self.srv._async = dict(self.srv._async)      # private copy: the driver table is a module-level dict
         self.events = []
         self.reads = []
         self.connect_result = None
